@@ -1474,4 +1474,55 @@ theorem history_inv (ops : List (COp κ ν × Nat)) (g : G κ ν) (h : Inv g) :
   | nil => exact h
   | cons o os ih => exact ih _ (runAt_inv o.1 o.2 g h)
 
+
+/-! ### dropping a composite cache: each list drains its own index and unboxes the nodes it finds there -/
+
+/-- node ids unboxed when the lists `cs` are dropped -/
+def dropAll (g : G κ ν) (cs : List Nat) : List Nat := cs.flatMap fun c => (g.idx c).map (·.2)
+
+theorem idx_ids_nd {g : G κ ν} (hI : Inv g) (c : Nat) : ((g.idx c).map (·.2)).Nodup := by
+  have hk := hI.keys_nd c
+  have key : ∀ a ∈ g.idx c, ∀ b ∈ g.idx c, a.2 = b.2 → a.1 = b.1 := by
+    intro a ha b hb hab
+    exact idx_id_key hI (k := a.1) (k' := b.1) (i := a.2) ha (by rw [hab]; exact hb)
+  generalize g.idx c = l at hk key
+  induction l with
+  | nil => simp
+  | cons x t ih =>
+    simp only [List.map_cons, List.nodup_cons, List.mem_map, not_exists, not_and] at hk ⊢
+    refine ⟨?_, ih hk.2 (fun a ha b hb => key a (List.mem_cons_of_mem _ ha) b (List.mem_cons_of_mem _ hb))⟩
+    intro y hy hyx
+    exact hk.1 y hy (key y (List.mem_cons_of_mem _ hy) x List.mem_cons_self hyx)
+
+theorem nodup_flatMap_of {α β : Type} (f : α → List β) (l : List α) (hl : l.Nodup) (h1 : ∀ a, (f a).Nodup)
+    (h2 : ∀ a b, a ≠ b → ∀ x ∈ f a, x ∉ f b) : (l.flatMap f).Nodup := by
+  induction l with
+  | nil => simp
+  | cons a t ih =>
+    simp only [List.nodup_cons] at hl
+    rw [List.flatMap_cons, List.nodup_append]
+    refine ⟨h1 a, ih hl.2, ?_⟩
+    intro x hx y hy hxy
+    subst hxy
+    obtain ⟨b, hb, hxb⟩ := List.mem_flatMap.1 hy
+    exact h2 a b (fun hc => hl.1 (hc ▸ hb)) x hx hxb
+
+/-- no node is unboxed twice when the cache is dropped — from any invariant state, also one left by a panic -/
+theorem dropAll_nodup {g : G κ ν} (hI : Inv g) (cs : List Nat) (hcs : cs.Nodup) : (dropAll g cs).Nodup := by
+  apply nodup_flatMap_of _ _ hcs (fun c => idx_ids_nd hI c)
+  intro a b hab x hxa hxb
+  obtain ⟨ea, hea, rfl⟩ := List.mem_map.1 hxa
+  obtain ⟨eb, heb, hid⟩ := List.mem_map.1 hxb
+  have h1 := indexed_linked hI (c := a) (k := ea.1) (i := ea.2) hea
+  have h2 := indexed_linked hI (c := b) (k := eb.1) (i := eb.2) heb
+  rw [hid] at h2
+  have := Has.tag_unique hI h1 h2
+  cases this
+  exact hab rfl
+
+/-- and every node it unboxes is live and linked in the list that unboxes it -/
+theorem dropAll_live {g : G κ ν} (hI : Inv g) (c : Nat) (i : Nat) (h : i ∈ (g.idx c).map (·.2)) : Has g i (.inL c) := by
+  obtain ⟨e, he, rfl⟩ := List.mem_map.1 h
+  exact indexed_linked hI (k := e.1) he
+
 end M.AG
